@@ -102,7 +102,7 @@ namespace plan
       m.rr_caps.push_back(cap);
       m.rr_cap_var.push_back("");
       std::string cap_text = qtext(cap);
-      if ((op.arg(1) & 1) && !m.reals.empty() && cap >= 1)
+      if ((op.arg(1) & 1) && !q_rr_numeric && !m.reals.empty() && cap >= 1)
       { // the capacity is an expression: `c - x` with 0 <= x <= c - 1 (its value may still move while the search goes on)
         std::vector<std::string> xs;
         for (size_t i = 0; i < m.reals.size(); ++i)
